@@ -49,10 +49,28 @@
 (*       timer starts an attempt while the state exists, and the failure   *)
 (*       path arms a timer without stopping the one armed meanwhile (by a  *)
 (*       Schedule from inside the callback)                                *)
+(*   DevAggressiveReconnectIgnoresSleep  (agent level, see below)          *)
 (*   DevNoClamp                the product nextDelay*Multiplier is not     *)
 (*       clamped to MaxDelay (growth merely stops once the cap is reached) *)
 (*   DevSuccessKeepsState      a successful attempt keeps the state (and   *)
 (*       its grown delay) when a timer was armed while the callback ran    *)
+(*                                                                         *)
+(* Agent level (WithAgent = TRUE), internal/agent/agent.go: the reconnector*)
+(* is paused because the AGENT is asleep.  The agent drives it only through*)
+(*   AgentSleep      enterSleep: peerMgr.DisconnectAll -> Pause            *)
+(*   AgentWake       exitSleep: peerMgr.ReconnectAll (= ResetAll ; Resume ;*)
+(*                   one dial per configured peer, a failed one is         *)
+(*                   scheduled) and the start of a bounded "aggressive     *)
+(*                   reconnect" activity (a goroutine with a ticker)       *)
+(*   AggressiveTick  one tick of such an activity: ReconnectAll again      *)
+(* C31 at this level: no connection attempt begins - by a timer, by        *)
+(* ReconnectAll or by an aggressive tick - while the agent is asleep       *)
+(* (AgentNoDialWhileAsleep), and the reconnector stays paused for as long  *)
+(* as the agent sleeps (AsleepPaused).  The ideal activity ends at its     *)
+(* first tick that finds the agent no longer awake.                        *)
+(*   DevAggressiveReconnectIgnoresSleep: the activity started by a Wake    *)
+(*   keeps ticking after a following Sleep: every tick resumes the         *)
+(*   reconnector and dials the peers of the sleeping agent.                *)
 (***************************************************************************)
 EXTENDS Naturals, Sequences, FiniteSets, TLC, Json
 
@@ -65,10 +83,14 @@ CONSTANTS Addr,         \* peer addresses
           MaxPend,      \* pending timers per address (only a deviation can exceed 1)
           Initial, MulN, MulD, MaxDelay,  \* delays in ms: Initial, multiplier MulN/MulD, cap
           WithStop,     \* model Stop()
+          WithAgent,    \* model the agent-level actors (then Pause/Resume/ResetAll only happen through them)
+          MaxTicks,     \* ticks of one aggressive-reconnect activity
+          MaxAggr,      \* activities running at the same time
           Dev,
           Emit
 
-DevNames == {"DevNoPauseCheckInAttempt", "DevDoubleTimer", "DevNoClamp", "DevSuccessKeepsState"}
+DevNames == {"DevNoPauseCheckInAttempt", "DevDoubleTimer", "DevNoClamp", "DevSuccessKeepsState",
+             "DevAggressiveReconnectIgnoresSleep"}
 ASSUME Dev \subseteq DevNames
 
 VARIABLES paused, closed,
@@ -80,10 +102,12 @@ VARIABLES paused, closed,
           pend,   \* [Addr -> Seq([d, cur])]  armed timers that have not fired and were not stopped
           gate,   \* [Addr -> Seq([d, cur])]  fired timers in front of attemptReconnect's lock (arrival order)
           infl,   \* [Addr -> Seq([n, d, own])] attempts whose callback is running (begin order)
+          asleep, \* the agent's sleep state is SLEEPING
+          aggr,   \* Seq(Nat): remaining ticks of every running aggressive-reconnect activity
           last
 
-vars == <<paused, closed, ex, att, idx, nd, cons, pend, gate, infl, last>>
-view == <<paused, closed, ex, att, idx, nd, cons, pend, gate, infl>>
+vars == <<paused, closed, ex, att, idx, nd, cons, pend, gate, infl, asleep, aggr, last>>
+view == <<paused, closed, ex, att, idx, nd, cons, pend, gate, infl, asleep, aggr>>
 
 Min(a, b) == IF a < b THEN a ELSE b
 \* the statement's delay of the k-th consecutive retry (before jitter)
@@ -105,6 +129,7 @@ Init ==
   /\ ex = [a \in Addr |-> FALSE] /\ att = [a \in Addr |-> 0] /\ idx = [a \in Addr |-> 0]
   /\ nd = [a \in Addr |-> 0] /\ cons = [a \in Addr |-> 0]
   /\ pend = [a \in Addr |-> <<>>] /\ gate = [a \in Addr |-> <<>>] /\ infl = [a \in Addr |-> <<>>]
+  /\ asleep = FALSE /\ aggr = <<>>
   /\ last = [act |-> "Init"]
 
 (* ---- building blocks ----------------------------------------------------*)
@@ -248,12 +273,64 @@ Stop ==
   /\ UNCHANGED paused
   /\ last' = [act |-> "Stop"]
 
-Next ==
+(* ---- the agent ------------------------------------------------------------*)
+\* peer.Manager.ReconnectAll: ResetAll ; Resume ; dial every configured peer; F = the peers whose dial fails
+\* (connectWithTransport and ReconnectAll both call Schedule for them: one armed timer, index 0)
+ReconnectAllBody(F) ==
+  /\ paused' = FALSE
+  /\ ex' = [a \in Addr |-> a \in F /\ ~closed]
+  /\ att' = [a \in Addr |-> 0] /\ idx' = [a \in Addr |-> 0] /\ cons' = [a \in Addr |-> 0]
+  /\ nd' = [a \in Addr |-> IF a \in F /\ ~closed THEN Initial ELSE 0]
+  /\ pend' = [a \in Addr |-> IF a \in F /\ ~closed THEN <<[d |-> 0, cur |-> TRUE]>> ELSE <<>>]
+  /\ gate' = [a \in Addr |-> IF Superseding THEN Stale(gate[a]) ELSE gate[a]]
+  /\ infl' = [a \in Addr |-> Disown(infl[a])]
+  /\ UNCHANGED closed
+
+Running(s) == SelectSeq(s, LAMBDA x : x > 0)
+
+AgentSleep ==
+  /\ WithAgent /\ ~asleep
+  /\ asleep' = TRUE
+  /\ IF paused \/ closed
+       THEN UNCHANGED <<paused, pend>>
+       ELSE paused' = TRUE /\ pend' = [a \in Addr |-> <<>>]
+  /\ UNCHANGED <<closed, ex, att, idx, nd, cons, gate, infl, aggr>>
+  /\ last' = [act |-> "AgentSleep"]
+
+AgentWake(F) ==
+  /\ WithAgent /\ asleep /\ Len(aggr) < MaxAggr
+  /\ asleep' = FALSE
+  /\ ReconnectAllBody(F)
+  /\ aggr' = Append(aggr, MaxTicks)
+  /\ last' = [act |-> "AgentWake", failed |-> F, asleep |-> FALSE]
+
+AggressiveTick(i, F) ==
+  /\ WithAgent /\ i \in 1..Len(aggr)
+  /\ IF asleep /\ "DevAggressiveReconnectIgnoresSleep" \notin Dev
+       THEN \* the agent is no longer awake: the activity ends without touching anything
+            /\ F = {}
+            /\ aggr' = Running([aggr EXCEPT ![i] = 0])
+            /\ UNCHANGED <<paused, closed, ex, att, idx, nd, cons, pend, gate, infl>>
+            /\ last' = [act |-> "AggressiveTick", i |-> i, res |-> "stopped", asleep |-> asleep]
+       ELSE /\ ReconnectAllBody(F)
+            /\ aggr' = Running([aggr EXCEPT ![i] = @ - 1])
+            /\ last' = [act |-> "AggressiveTick", i |-> i, res |-> "dialed", failed |-> F, asleep |-> asleep]
+  /\ UNCHANGED asleep
+
+AgentNext ==
+  \/ AgentSleep
+  \/ \E F \in SUBSET Addr : AgentWake(F)
+  \/ \E i \in 1..MaxAggr, F \in SUBSET Addr : AggressiveTick(i, F)
+
+ReconnectorNext ==
   \/ \E a \in Addr : Schedule(a) \/ CbSchedule(a) \/ Cancel(a)
   \/ \E a \in Addr, i \in 1..MaxPend : TimerFire(a, i)
   \/ \E a \in Addr, i \in 1..MaxGate : Release(a, i)
   \/ \E a \in Addr, j \in 1..MaxInfl, ok \in BOOLEAN : AttemptEnd(a, j, ok)
-  \/ Pause \/ Resume \/ ResetAll \/ Stop
+  \/ (~WithAgent /\ (Pause \/ Resume \/ ResetAll))
+  \/ Stop
+
+Next == (ReconnectorNext /\ UNCHANGED <<asleep, aggr>>) \/ AgentNext
 
 Spec == Init /\ [][Next]_vars
 
@@ -277,6 +354,11 @@ Backoff ==
 \* ... and the delay the next timer will be armed with is min(Initial * Multiplier^k, MaxDelay), k = consecutive
 \* attempts so far (the code's own counter must be that k: it restarts after a success)
 NextDelayOK == \A a \in Addr : ex[a] => (nd[a] = Delay(cons[a]) /\ att[a] = cons[a])
+\* C31 (1) at agent level: nothing dials while the agent is asleep, and the reconnector stays paused meanwhile
+AgentNoDialWhileAsleep ==
+  [][/\ ((last'.act = "AggressiveTick" /\ last'.res = "dialed") => ~asleep)
+     /\ ((last'.act = "Release" /\ last'.res = "begin") => ~asleep)]_vars
+AsleepPaused == asleep => (paused \/ closed)
 \* every timer is armed with the state's current index
 ArmIndex ==
   [][(last'.act \in {"Schedule", "CbSchedule", "AttemptEnd"} /\ last'.res = "armed") => last'.d = Min(att[last'.a], Cap)]_vars
@@ -284,8 +366,8 @@ ArmIndex ==
 EmitEdge ==
   Emit => PrintT("EDGE " \o ToJson([
             s |-> [paused |-> paused, closed |-> closed, ex |-> ex, att |-> att, idx |-> idx, nd |-> nd,
-                   pend |-> pend, gate |-> gate, infl |-> infl],
+                   pend |-> pend, gate |-> gate, infl |-> infl, asleep |-> asleep, aggr |-> aggr],
             a |-> last',
             t |-> [paused |-> paused', closed |-> closed', ex |-> ex', att |-> att', idx |-> idx', nd |-> nd',
-                   pend |-> pend', gate |-> gate', infl |-> infl']]))
+                   pend |-> pend', gate |-> gate', infl |-> infl', asleep |-> asleep', aggr |-> aggr']]))
 =============================================================================
